@@ -48,7 +48,7 @@ STRUCT_ORACLES = ("wf", "index", "sibling")
 def _meta_snap(m):
     if m is None:
         return None
-    return tuple((repr(k), repr(v)) for k, v in m.items())
+    return (id(m), tuple((repr(k), repr(v), id(v)) for k, v in m.items()))
 
 
 def snap_tree(t):
@@ -68,6 +68,27 @@ def snapshot(w: World):
     return tuple(snap_tree(t) for t in w.trees)
 
 
+_FIELDS = ("node object", "data object", "data_id", "node_id", "kind", "meta", "_parent", "_tree")
+
+
+def _node_diff(xs, ys, path="top"):
+    """which node and which field differ first (child lists of snapshots)"""
+    if len(xs) != len(ys):
+        return f" [{path}: {len(xs)} -> {len(ys)} children]"
+    for j, (a, b) in enumerate(zip(xs, ys)):
+        if a == b:
+            continue
+        if len(a) < 9 or len(b) < 9:
+            return f" [{path}/{j}]"
+        for k, nm in enumerate(_FIELDS):
+            if a[k] != b[k]:
+                if nm == "meta":
+                    return f" [{path}/{j}: meta {a[k] and [m[:2] for m in a[k][1]]} -> {b[k] and [m[:2] for m in b[k][1]]}]"
+                return f" [{path}/{j}: {nm}]"
+        return _node_diff(a[8], b[8], f"{path}/{j}")
+    return ""
+
+
 def snap_diff(a, b):
     """short description of the first difference between two snapshots"""
     if len(a) != len(b):
@@ -79,7 +100,7 @@ def snap_diff(a, b):
                  "_node_by_id", "_nodes_by_data_id")
         for k, nm in enumerate(names):
             if x[k] != y[k]:
-                return f"tree {i}: {nm} changed"
+                return f"tree {i}: {nm} changed" + (_node_diff(x[k], y[k]) if k == 3 else "")
     return "?"
 
 
@@ -557,6 +578,10 @@ def calc_fault_hists(univ, setup, op, fn="name"):
 # ---------------------------------------------------------------------------
 # (b2)/(c) probes through the raw API: call-index fault injection and read-only operations
 # ---------------------------------------------------------------------------
+class ProbeViolation(Exception):
+    """raised by a probe that checks something itself (e.g. the second operand of a diff)"""
+
+
 class Plan:
     """counts the invocations of the user callbacks of one operation; raises at invocation k"""
 
@@ -570,11 +595,23 @@ class Plan:
             raise CallbackFault(f"injected at invocation {self.k}")
 
 
-def build_world(univ, setup) -> World:
+def build_world(univ, setup, with_meta=False) -> World:
     w = World(univ)
     for o in setup:
         thunk, _, _ = execute(w, o)
         thunk()
+    if with_meta:
+        # every node carries metadata (set through the three public routes), so that an operation that shares or
+        # rewrites a node's meta dict (e.g. annotations of a diff leaking into the compared trees) shows in the snapshot
+        for ti, t in enumerate(w.trees):
+            for i, n in enumerate(mut.tree_nodes(t)):
+                if i % 3 == 0:
+                    n.set_meta("m", i)
+                elif i % 3 == 1:
+                    n.update_meta({"u": [ti, i], "dc": "user"})
+                else:
+                    n.set_meta("a", "x")
+                    n.update_meta({"b": i}, replace=False)
     return w
 
 
@@ -697,6 +734,38 @@ def mutating_probes():
     return P
 
 
+def _diff_variants(w):
+    """diff against copies of the tree that were reordered / pruned / extended, so that every classification
+    (added, removed, moved, renumbered) occurs on nodes that carry metadata; both directions, all options"""
+    t = w.trees[0]
+    out = []
+    for variant in range(3):
+        c = t.copy()
+        for n, m in zip(list(c), list(t)):
+            if m._meta:
+                n.update_meta(dict(m._meta))
+        nodes = list(c)
+        if variant == 0 and nodes:
+            c.sort(key=lambda n: n.name, reverse=True, deep=True)
+        elif variant == 1 and nodes:
+            nodes[-1].remove()
+            (c.add("extra") if not isinstance(c, TypedTree) else c.add("extra", kind="k1"))
+        elif variant == 2 and len(nodes) > 1 and not isinstance(c, TypedTree):
+            leaf = [n for n in nodes if not n._children][-1]
+            try:
+                leaf.move_to(c, before=0)
+            except Exception:
+                pass
+        snap_c = snap_tree(c)
+        for o in (False, True):
+            for r in (False, True):
+                out.append(t.diff(c, ordered=o, reduce=r))
+                out.append(c.diff(t, ordered=o, reduce=r))
+        if snap_tree(c) != snap_c:
+            raise ProbeViolation("diff changed its second operand (a copy of the tree): " + snap_diff((snap_c,), (snap_tree(c),)))
+    return out
+
+
 def readonly_probes():
     """(name, fn(w, plan)) - operations that must leave every existing tree unchanged; the callbacks they take
     go through plan.tick()"""
@@ -795,6 +864,25 @@ def readonly_probes():
         add(f"Tree.copy(predicate={'/'.join(pat)})", lambda w, plan, pat=pat: w.trees[0].copy(predicate=_verdict_cycle(plan, pat)))
         add(f"Node.copy(predicate={'/'.join(pat)})", lambda w, plan, pat=pat: _nodes(w)[0].copy(predicate=_verdict_cycle(plan, pat)))
         add(f"Node.filtered({'/'.join(pat)})", lambda w, plan, pat=pat: _nodes(w)[0].filtered(_verdict_cycle(plan, pat)))
+    # hand-backs: edit what a read-only operation returned (structure and metadata) - the source must not notice
+    def edit_tree(t2):
+        for n in list(t2):
+            n.set_meta("edited", 1)
+            n.update_meta({"dc": "edited", "u": "edited"})
+        for n in list(t2):
+            if n._tree is not None and not n._children:
+                n.remove()
+        t2.add("edited-top") if not isinstance(t2, TypedTree) else t2.add("edited-top", kind="k1")
+
+    add("Tree.copy() then edit the copy", lambda w, plan: edit_tree(w.trees[0].copy()))
+    add("Node.copy() then edit the copy", lambda w, plan: edit_tree(_nodes(w)[0].copy()))
+    add("Tree.filtered() then edit the result", lambda w, plan: edit_tree(w.trees[0].filtered(lambda n: True)))
+    for ordered in (False, True):
+        for reduce in (False, True):
+            add(f"Tree.diff(ordered={ordered}, reduce={reduce}) then edit the result",
+                lambda w, plan, o=ordered, r=reduce: (edit_tree(w.trees[0].diff(w.trees[1], ordered=o, reduce=r)),
+                                                      edit_tree(w.trees[1].diff(w.trees[0], ordered=o, reduce=r))))
+    add("Tree.diff of a tree with a reordered / shrunk copy of itself", lambda w, plan: _diff_variants(w))
     add("Tree.copy()", lambda w, plan: w.trees[0].copy())
     add("Node.copy(add_self)", lambda w, plan: [n.copy(add_self=a) for n in _nodes(w) for a in (True, False)])
     add("Tree.format(repr=callable)", lambda w, plan: w.trees[0].format(repr=lambda n: (plan.tick(), n.name)[1], title=True))
@@ -852,7 +940,7 @@ def run_probes(univ, setup, only=None):
         for name, fn in probes:
             if only is not None and name not in only:
                 continue
-            w = build_world(univ, setup)
+            w = build_world(univ, setup, with_meta=True)
             if not _nodes(w) or len(w.trees) < 2:
                 continue
             snap0 = snapshot(w)
@@ -861,6 +949,8 @@ def run_probes(univ, setup, only=None):
             sys.setrecursionlimit(mut.OP_RECURSION_LIMIT)
             try:
                 fn(w, plan)
+            except ProbeViolation as e:
+                fails.append((name, None, str(e)))
             except Exception:
                 stats["raised_clean"] += 1
             finally:
@@ -875,7 +965,7 @@ def run_probes(univ, setup, only=None):
                 if snapshot(w) != snap0:
                     fails.append((name, None, "read-only operation changed the tree: " + snap_diff(snap0, snapshot(w))))
             for k in range(1, plan.n + 1):
-                w = build_world(univ, setup)
+                w = build_world(univ, setup, with_meta=True)
                 snap0 = snapshot(w)
                 p2 = Plan(k)
                 raised = None
@@ -1204,3 +1294,57 @@ def call_order_check(univ, setup, ops):
         if a != b:
             return f"call order of {op[0]} {op[2:]}: implementation {a}, model {b}", len(ops)
     return None, len(ops)
+
+
+# ---------------------------------------------------------------------------
+# (a4) late collisions ACROSS KINDS in typed targets: Tree._register refuses a second child with one data_id per
+# parent whatever the kinds, so the up-front check of a multi-node copy must not be by (kind, data_id).  Multi-node
+# copies (add(tree) x before x deep, Tree.copy_to, Node.copy_to(add_self=False)) from a typed source - and, for the
+# refusal by class, from a plain source - whose colliding node is the first / a middle / the last one copied and
+# has another kind / the same kind as the child it collides with; target = a node and the tree itself.
+# ---------------------------------------------------------------------------
+def typed_collision_hists():
+    U = ["s:a", "s:b", "s:c", "s:d", "s:team", "s:x"]
+    a, b, c, d, team, x = range(6)
+    out = []
+
+    def add(ti, p, dd, kind, did=None):
+        return ["add", ti, p, dd, did, kind, None]
+
+    for target_is_root in (False, True):
+        for coll_pos in (0, 1, 2, 3):                      # which of the four source nodes collides
+            for src_kind, tgt_kind in (("guest", "member"), ("member", "member"), ("guest", "guest")):
+                src_data = [a, b, c, d]
+                # target tree 0 (typed): team > (x:member, <colliding>:tgt_kind)   or the same two at top level
+                setup = [["new", True, None]]
+                if target_is_root:
+                    setup += [add(0, 0, x, "member"), add(0, 0, src_data[coll_pos], tgt_kind)]
+                    tp, n0 = 0, 2
+                else:
+                    setup += [add(0, 0, team, "org"), add(0, 1, x, "member"), add(0, 1, src_data[coll_pos], tgt_kind)]
+                    tp, n0 = 1, 3
+                # source tree 1 (typed): the four nodes at top level, the second one with a child
+                setup += [["new", True, None]] + [add(1, 0, dd, src_kind) for dd in src_data] + [add(1, n0 + 2, x, "sub")]
+                # source tree 2 (typed): holder > the four nodes
+                setup += [["new", True, None], add(2, 0, team, "org")] + [add(2, n0 + 6, dd, src_kind) for dd in src_data]
+                holder = n0 + 6
+                ops = []
+                for bef in (None, True, 0, -1):
+                    for deep in (None, False):
+                        ops.append(["addtree", 0, tp, 1, bef, deep])
+                ops.append(["copyto", 1, 0, 0, tp, False, None, True])          # Tree.copy_to
+                ops.append(["copyto", 1, 0, 0, tp, False, None, False])
+                ops.append(["copyto", 2, holder, 0, tp, False, None, True])      # Node.copy_to(add_self=False)
+                ops.append(["copyto", 2, holder, 0, tp, False, None, False])
+                out.append(dict(univ=U, setup=setup, alts=ops, label="typed/cross-kind collision"))
+    # a plain source into a typed target and a typed source into a plain target (refused by class, before anything)
+    for ty0, ty1 in ((True, False), (False, True)):
+        k0 = "member" if ty0 else None
+        k1 = "guest" if ty1 else None
+        setup = [["new", ty0, None], add(0, 0, team, "org" if ty0 else None), add(0, 1, c, k0),
+                 ["new", ty1, None], add(1, 0, a, k1), add(1, 0, b, k1), add(1, 0, c, k1), add(1, 4, x, k1)]
+        ops = [["addtree", 0, 1, 1, bef, deep] for bef in (None, True) for deep in (None, False)]
+        ops += [["copyto", 1, 0, 0, 1, False, None, True], ["copyto", 1, 4, 0, 1, False, None, True], ["copyto", 1, 4, 0, 1, True, None, True],
+                ["addnode", 0, 1, 1, 3, None, k0, None, True]]
+        out.append(dict(univ=U, setup=setup, alts=ops, label="typed/plain mixed copies"))
+    return out
